@@ -613,6 +613,28 @@ def handlerMsgs (modelMsgs : List Msg) (modelSystem : Bytes) (req : List Msg) : 
       ⟨Role.system, splitImg modelSystem, []⟩ :: (modelMsgs ++ req)
     else modelMsgs ++ req
 
+/-- `modelOptions`: the request's `num_ctx` wins over the model's PARAMETER, which wins over the
+    default (`api.DefaultOptions`) -/
+def requestNumCtx (dflt : Int) (modelParam reqOpt : Option Int) : Int :=
+  reqOpt.getD (modelParam.getD dflt)
+
+/-- what the scheduler loads the runner with, and stores in `runnerRef.Options`: its OWN copy of
+    the options, clamped to ≥ 4 by `GetRunner` and multiplied by the number of parallel slots by
+    `processPending` — not what a single chat may use -/
+def runnerNumCtx (numCtx : Int) (numParallel : Nat) : Int :=
+  (if numCtx < 4 then 4 else numCtx) * (if numParallel < 1 then 1 else numParallel)
+
+/-- POST /api/chat: `scheduleRunner` returns the options it computed from model ⊕ request (the
+    scheduler works on a copy), and ChatHandler passes them to chatPrompt.  `useRunnerOpts = true`
+    is the behaviour of a handler that would use the loaded runner's options instead (not the
+    code under test; here so that the difference can be stated). -/
+def chatHandler (fixed useRunnerOpts : Bool) (tv : TVar) (t : List Node) (dflt : Int)
+    (modelParam reqOpt : Option Int) (numParallel : Nat)
+    (modelMsgs : List Msg) (modelSystem : Bytes) (req : List Msg) : OutcomeT :=
+  let lim := requestNumCtx dflt modelParam reqOpt
+  let lim := if useRunnerOpts then runnerNumCtx lim numParallel else lim
+  chatPromptT ⟨fixed, false, 0, lim⟩ tv t 0 (handlerMsgs modelMsgs modelSystem req)
+
 /-- the tags of a rendered content, in order (runner: `regexp \[img-(\d+)\]`) -/
 def tagsOf (c : List Piece) : List Nat :=
   c.filterMap (fun p => match p with | .tag k => some k | _ => none)
